@@ -242,6 +242,16 @@ def oracle_a(c):
         d = trs_to_dict(exp_trs)
         if d.get("trs") != exp_trs:
             fails.append(Failure("A:trs_to_dict", f"trs_to_dict({exp_trs!r})['trs'] = {d.get('trs')!r}"))
+        # what the converter hands out is the caller's to change: objects for the same string, old and new, keep decomposing as before
+        for k in list(d):
+            d[k] = "XX" if k == "sec" else ("POISON" if isinstance(d[k], str) else None)
+        d["extra"] = 1
+        TRS.trs_to_dict(exp_trs)["sec"] = "77"
+        check_decomposition(t5, exp_twp, exp_rge, exp_sec, "TRS(str) after the caller changed the dict trs_to_dict returned", fails)
+        check_decomposition(TRS(exp_trs), exp_twp, exp_rge, exp_sec, "a new TRS(str) after the caller changed the dict trs_to_dict returned", fails)
+        again = trs_to_dict(exp_trs)
+        if again.get("trs") != exp_trs or "extra" in again:
+            fails.append(Failure("A:trs_to_dict_after_mutation", f"trs_to_dict({exp_trs!r}) after a caller changed an earlier result: {again}"))
     finally:
         MasterConfig.default_ns, MasterConfig.default_ew = old
     return fails
